@@ -146,6 +146,10 @@ def run_conv(c, lp, config, Model):
     except Exception as e:  # noqa: BLE001
         out["hist_error"] = err(e)
     obs = {}
+    # optional arguments: left at their defaults, or given explicitly with the default's value
+    dflt = bool(c.get("defaults"))
+    kw = {} if (nsp and dflt) else {"non_sampling_parameters": nsp}
+    gkw = dict(kw) if dflt else dict(kw, array_dtype="f8")
 
     def put(cid, fn, enc):
         def go():
@@ -153,13 +157,13 @@ def run_conv(c, lp, config, Model):
         if only is None or cid in only:
             obs[str(cid)] = attempt(go)
 
-    X = attempt(lambda: lp.numpy_array_to_live_points(arr, names, non_sampling_parameters=nsp))
-    put(0, lambda: lp.numpy_array_to_live_points(arr, names, non_sampling_parameters=nsp), enc_struct)
+    X = attempt(lambda: lp.numpy_array_to_live_points(arr, names, **kw))
+    put(0, lambda: lp.numpy_array_to_live_points(arr, names, **kw), enc_struct)
     if n == 1:
-        put(1, lambda: lp.numpy_array_to_live_points(arr[0], names, non_sampling_parameters=nsp), enc_struct)
-    put(2, lambda: lp.empty_structured_array(n, names, non_sampling_parameters=nsp), enc_struct)
+        put(1, lambda: lp.numpy_array_to_live_points(arr[0], names, **kw), enc_struct)
+    put(2, lambda: lp.empty_structured_array(n, names, **kw), enc_struct)
     put(3, lambda: lp.empty_structured_array(
-        n, dtype=lp.get_dtype(names, non_sampling_parameters=nsp), non_sampling_parameters=nsp), enc_struct)
+        n, dtype=lp.get_dtype(names, **gkw), **kw), enc_struct)
     if c.get("fields") and nsp:
         put(25, lambda: lp.empty_structured_array(n, dtype=[(k, kd) for k, kd in c["fields"]]), enc_struct)
     if n <= 1:
@@ -169,30 +173,34 @@ def run_conv(c, lp, config, Model):
             ps = tuple(ps)
         elif how == "array":
             ps = np.array(ps, dtype=float)
-        put(4, lambda: lp.parameters_to_live_point(ps, names, non_sampling_parameters=nsp), enc_struct)
+        put(4, lambda: lp.parameters_to_live_point(ps, names, **kw), enc_struct)
     import pandas as pd
-    put(5, lambda: lp.dataframe_to_live_points(pd.DataFrame(arr, columns=names), non_sampling_parameters=nsp),
+    put(5, lambda: lp.dataframe_to_live_points(pd.DataFrame(arr, columns=names), **kw),
         enc_struct)
     nodup = len(set(names)) == len(names)      # a Python dict cannot hold a duplicated key
     if nodup:
       put(6, lambda: lp.dict_to_live_points({k: [row[j] for row in data] for j, k in enumerate(names)},
-                                          non_sampling_parameters=nsp), enc_struct)
+                                          **kw), enc_struct)
     if nodup:
       put(7, lambda: lp.dict_to_live_points({k: arr[:, j].copy() for j, k in enumerate(names)},
-                                          non_sampling_parameters=nsp), enc_struct)
+                                          **kw), enc_struct)
     if n == 1 and nodup:
         put(8, lambda: lp.dict_to_live_points({k: data[0][j] for j, k in enumerate(names)},
-                                              non_sampling_parameters=nsp), enc_struct)
+                                              **kw), enc_struct)
     if c.get("dx") is not None:
         dx = {}
         for k, v in c["dx"]:
             dx[k] = b2f(v["s"]) if "s" in v else [b2f(b) for b in v["l"]]
-        put(9, lambda: lp.dict_to_live_points(dx, non_sampling_parameters=nsp), enc_struct)
+        put(9, lambda: lp.dict_to_live_points(dx, **kw), enc_struct)
     if not isinstance(X, dict):
         put(10, lambda: lp.live_points_to_array(X, names), enc_mat)
         put(11, lambda: lp.live_points_to_array(X, names, copy=True), enc_mat)
         put(12, lambda: lp.live_points_to_dict(X, names), enc_dict)
-        put(13, lambda: lp.live_points_to_dict(X), enc_dict)
+        put(13, lambda: lp.live_points_to_dict(X) if dflt else lp.live_points_to_dict(X, names=None), enc_dict)
+        put(26, lambda: lp.live_points_to_array(X) if dflt else lp.live_points_to_array(X, names=None, copy=False),
+            enc_mat)
+        put(27, lambda: lp.unstructured_view(X, dtype=lp._unstructured_view_dtype(X, names)) if dflt
+            else lp.unstructured_view(X, names=None, dtype=lp._unstructured_view_dtype(X, names)), enc_mat)
 
         def frame():
             df = pd.DataFrame(lp.live_points_to_dict(X, names))
@@ -200,12 +208,12 @@ def run_conv(c, lp, config, Model):
             e = enc_mat(vals)
             return {"t": "arr", "names": [str(k) for k in df.columns], "kinds": [], "rows": e["m"]}
         put(14, frame, lambda z: z)
-        put(15, lambda: lp.dict_to_live_points(lp.live_points_to_dict(X, names), non_sampling_parameters=nsp),
+        put(15, lambda: lp.dict_to_live_points(lp.live_points_to_dict(X, names), **kw),
             enc_struct)
         put(16, lambda: lp.numpy_array_to_live_points(lp.live_points_to_array(X, names), names,
-                                                      non_sampling_parameters=nsp), enc_struct)
+                                                      **kw), enc_struct)
         put(17, lambda: lp.dataframe_to_live_points(pd.DataFrame(lp.live_points_to_dict(X, names)),
-                                                    non_sampling_parameters=nsp), enc_struct)
+                                                    **kw), enc_struct)
         if c.get("qnames"):
             put(22, lambda: lp.live_points_to_array(X, list(c["qnames"])), enc_mat)
             put(23, lambda: lp.live_points_to_array(X, list(c["qnames"]), copy=True), enc_mat)
@@ -316,21 +324,22 @@ def run_hist(c, lp, config):
     return res
 
 
-def battery(lp, names, nsp, data):
+def battery(lp, names, nsp, data, dflt=False):
     """every conversion function for ONE point (the single-point converters and the vector ones)"""
     import pandas as pd
     arr = np.array(data, dtype=float).reshape(1, len(names))
     obs = {}
+    kw = {} if (nsp and dflt) else {"non_sampling_parameters": nsp}
 
     def put(cid, fn):
         obs[str(cid)] = attempt(lambda: enc_struct(fn()))
-    put(0, lambda: lp.numpy_array_to_live_points(arr, names, non_sampling_parameters=nsp))
-    put(1, lambda: lp.numpy_array_to_live_points(arr[0], names, non_sampling_parameters=nsp))
-    put(2, lambda: lp.empty_structured_array(1, names, non_sampling_parameters=nsp))
-    put(4, lambda: lp.parameters_to_live_point(list(data[0]), names, non_sampling_parameters=nsp))
-    put(5, lambda: lp.dataframe_to_live_points(pd.DataFrame(arr, columns=names), non_sampling_parameters=nsp))
-    put(6, lambda: lp.dict_to_live_points({k: [data[0][j]] for j, k in enumerate(names)}, non_sampling_parameters=nsp))
-    put(8, lambda: lp.dict_to_live_points({k: data[0][j] for j, k in enumerate(names)}, non_sampling_parameters=nsp))
+    put(0, lambda: lp.numpy_array_to_live_points(arr, names, **kw))
+    put(1, lambda: lp.numpy_array_to_live_points(arr[0], names, **kw))
+    put(2, lambda: lp.empty_structured_array(1, names, **kw))
+    put(4, lambda: lp.parameters_to_live_point(list(data[0]), names, **kw))
+    put(5, lambda: lp.dataframe_to_live_points(pd.DataFrame(arr, columns=names), **kw))
+    put(6, lambda: lp.dict_to_live_points({k: [data[0][j]] for j, k in enumerate(names)}, **kw))
+    put(8, lambda: lp.dict_to_live_points({k: data[0][j] for j, k in enumerate(names)}, **kw))
     return obs
 
 
@@ -346,7 +355,7 @@ def run_staged(c, lp, config):
             do_hist([op], lp, config)
         except Exception as ex:  # noqa: BLE001
             e = err(ex)
-        steps.append({"obs": battery(lp, names, nsp, data), "op_error": e})
+        steps.append({"obs": battery(lp, names, nsp, data, bool(c.get("defaults"))), "op_error": e})
     lp.reset_extra_live_points_parameters()
     return {"steps": steps}
 
